@@ -4,10 +4,11 @@ import json
 from harness import core, pyrun, gen_deser as G, gen_ser as S
 from harness.core import coq_bool
 from harness.ser_run import SProducer
-from harness.descr import data_coq
+from harness.descr import data_coq, ty_coq, value_coq
 from harness.schema_coq import doc_coq, Unsupported
 
-NEEDED = ["Schema/Json.v", "Schema/Build.v", "Schema/Run.v", "Schema/Proofs.v", "Ser/Model.v", "Ser/Spec.v"]
+NEEDED = ["Schema/Json.v", "Schema/Build.v", "Schema/Run.v", "Schema/Proofs.v", "Ser/Model.v", "Ser/Spec.v",
+          "Ser/RoundTripInd.v", "Schema/AgreeProofs.v", "Schema/SerAgree.v"]
 HEADER_EXTRA = "From AV Require Import Schema.Json Schema.Build Schema.Run.\n"
 
 
@@ -30,6 +31,18 @@ def json_in_domain(j):
     return False
 
 
+def has_obj(t):
+    if t[0] == "obj":
+        return True
+    if t[0] in ("coll", "con"):
+        return has_obj(t[2])
+    if t[0] in ("tuple", "union"):
+        return any(has_obj(x) for x in t[1])
+    if t[0] == "map":
+        return has_obj(t[1]) or has_obj(t[2])
+    return False
+
+
 def run(tier):
     R = core.Run("C07", tier)
     R.trusted = core.TRUSTED_COMMON + [
@@ -49,6 +62,7 @@ def run(tier):
         return o
     P = SProducer(R, *n, depth=3, make_opts=make_opts, pass_through=False)
     schemas, sdefs, vcases, vmeta = {}, [], [], []
+    tcases, tmeta = [], []      # object-free cases: candidates for the proved theorem (Schema/SerAgree.v)
 
     def unset_drops(c):
         """fields dropped by unset-tracking: outside the property"""
@@ -119,6 +133,10 @@ def run(tier):
                 try:
                     vcases.append(f"(S{ent['idx']}, D{ent['idx']}, {data_coq(j)}, {coq_bool(not errors)})")
                     vmeta.append(dict(c.to_json(), output=j, schema=ent["doc"], oracle=not errors))
+                    if not has_obj(c.t):
+                        tcases.append(f"(U{c.uidx}, {S.sopts_coq(c.opts)}, {ty_coq(c.t)}, {value_coq(c.value, U.mod, sort_sets=False)}, "
+                                      f"S{ent['idx']}, D{ent['idx']}, {data_coq(j)})")
+                        tmeta.append(dict(c.to_json(), output=j, schema=ent["doc"]))
                 except Exception:
                     R.count("output_outside_fragment")
         finally:
@@ -141,12 +159,34 @@ def run(tier):
         R.broken.append("the validator model (Schema/Json.v jvalid) disagrees with jsonschema on " + json.dumps(vmeta[i])[:700])
     R.hist["validator_cases"] = len(vcases)
     R.hist["validator_mismatches"] = len(bad2)
+    # the proved fragment (C07_object_free_output_validates): on the cases within its hypotheses, the schema the theorem speaks
+    # about (the builder model) is the implementation's serialization_schema, and its conclusion is re-evaluated
+    T3 = "univ * sopts * ty * value * js * defs * pyval"
+    hyps = ("(let refs := refs_pred (refs_of u (fun _ => false) false t) in rt_ty u t && no_obj t && has_type u 40 t v && canonical u v "
+            "&& obj_free t && wf_con t && con_mergeable u (dopts_of so) refs fuel_s false t && keys_ok u t && in_domain d)")
+    th_header = header + "From AV Require Import Ser.Spec Ser.RoundTrip Ser.RoundTripInd Schema.AgreeProofs Schema.SerAgree.\n"
+    outside, errs = core.run_coq_shards("C07_hyps", th_header, tcases,
+                                        "(fun c : " + T3 + " => let '(u, so, t, v, s, ds, d) := c in " + hyps + ")", item_type=T3, shard=300)
+    for k, e in errs:
+        R.broken.append(f"coq evaluation failed (C07_hyps shard {k}): {e[-300:]}")
+    bad3, errs = core.run_coq_shards(
+        "C07_thm", th_header, tcases,
+        "(fun c : " + T3 + " => let '(u, so, t, v, s, ds, d) := c in negb " + hyps + " || "
+        "(let '(ms, mds) := model_schema u (dopts_of so) false None t in js_eqb ms s && defs_eqb mds ds && jvalid false mds fuel_s ms d))",
+        item_type=T3, shard=300)
+    for k, e in errs:
+        R.broken.append(f"coq evaluation failed (C07_thm shard {k}): {e[-300:]}")
+    for i in bad3[:5]:
+        R.violation("object-free type: serialization_schema differs from the schema model the theorem is stated on, or the output "
+                    "does not validate against it", tmeta[i], no_input=True)
+    R.hist["object_free_cases"] = len(tcases)
+    R.hist["cases_within_the_proved_theorem"] = len(tcases) - len(outside)
     return R.finish(
         rule="the C04 universes (dataclass / NamedTuple / TypedDict, skip / none_as_undefined / Undefined fields, serialized "
              "methods, ordering, fields_set) x types of depth <= 3 x well-typed values x global exclude_defaults / exclude_none "
              "x aliaser x additional_properties x no_copy; cases where unset-tracking drops fields are excluded; every output is "
-             "validated with jsonschema against serialization_schema generated under the same settings",
-        level="exploration")
+             "validated with jsonschema against serialization_schema generated under the same settings; object-free cases within "
+             "the hypotheses of C07_object_free_output_validates: serialization_schema = the schema model, conclusion re-evaluated")
 
 
 NESTED_SRC = '''
